@@ -54,6 +54,7 @@ func checkC10(c *Ctx) (string, error) {
 		checkChanWake(c, rp)
 		checkSelectPairing(c, rp)
 		evalBufferedChan(c, rp)
+		checkSelfRendezvous(c, rp)
 		c.Config = ""
 	}
 	w, err := loadMain(defaultCfg, "ssa")
@@ -62,6 +63,7 @@ func checkC10(c *Ctx) (string, error) {
 	}
 	c.use(w)
 	checkChanOpLayout(c, w.Main("ssa"), rpDefault)
+	checkRecvSlots(c, w.Main("ssa"))
 	return "C10 (structural necessary conditions): must/may lockset dataflow over the CFG of every function of runtime z_chan.go (guarded-field accesses, Lock/Unlock pairing, Wait under lock, exits), wait-in-loop, wake-after-write on all paths, finite-domain check that the conditional wake-ups in ChanSend/prepareSelect cover every transition of chanTryRecv's blocking predicates from blocking to enabled (sends,selsends in 0..3), Select register/unregister symmetry, ChanOp/result tuple layout against the runtime declarations, and abstract evaluation of the buffered send/receive paths against a bounded-FIFO specification on all small states. NOT decided: FIFO order and exactly-once delivery across interleavings, absence of deadlock or lost wake-ups under all schedules, unbuffered rendezvous protocol.", nil
 }
 
